@@ -293,6 +293,7 @@ func runC15(c *Ctx) {
 		checkSinglePackSite(c, hh)
 	}
 	inlinedDoStore := map[*ssa.Store]bool{}
+	librarySetDo := map[*ssa.Call]bool{}
 	if nc != nil {
 		respOK, doOK := false, false
 		eachInstr(nc, func(in ssa.Instruction) {
@@ -329,6 +330,38 @@ func runC15(c *Ctx) {
 				}
 			}
 		})
+		// third form: the library's setter, `respOpt.SetDo()` without arguments (sets the bit), under clientOpt.Do()
+		if !doOK {
+			eachInstr(nc, func(in ssa.Instruction) {
+				ci, ok := in.(*ssa.Call)
+				if !ok || callName(ci) != "(*github.com/miekg/dns.OPT).SetDo" || len(ci.Call.Args) != 2 {
+					return
+				}
+				if !isNilConst(ci.Call.Args[1]) {
+					// a variadic argument list: accept only the empty one (nil slice)
+					return
+				}
+				isResp := false
+				if k, _ := loadedField(ci.Call.Args[0]); k == Q+"respOpt" {
+					isResp = true
+				}
+				if cl, isCall := ci.Call.Args[0].(*ssa.Call); isCall && newOpt != nil && staticCallee(cl) == newOpt {
+					isResp = true
+				}
+				if !isResp {
+					return
+				}
+				for _, g := range guardsOfInstr(in) {
+					v, truth := g.asBool()
+					if cl, ok := v.(*ssa.Call); ok && truth && callName(cl) == "(*github.com/miekg/dns.OPT).Do" {
+						if k2, _ := loadedField(cl.Call.Args[0]); k2 == Q+"clientOpt" {
+							doOK = true
+							librarySetDo[ci] = true
+						}
+					}
+				}
+			})
+		}
 		// second form: the one-use helper inlined — `respOpt.Hdr.Ttl |= 1 << 15` on the fresh response OPT under
 		// clientOpt.Do()
 		if !doOK {
@@ -398,7 +431,7 @@ func runC15(c *Ctx) {
 		c.check(respOK, "respopt-iff-clientopt", nc.Pos(), "respOpt is created exactly when the client sent an OPT", "the response OPT is not created exactly when the client's query had one")
 		c.check(doOK, "do-mirrored", nc.Pos(), "DO is copied from the client's OPT", "the client's DO bit is not mirrored into the response OPT")
 	}
-	if sd := c.P.Func(relQctx, "", "setDo"); sd == nil && len(inlinedDoStore) == 0 {
+	if sd := c.P.Func(relQctx, "", "setDo"); sd == nil && len(inlinedDoStore) == 0 && len(librarySetDo) == 0 {
 		c.anchorMissing(relQctx + ".setDo")
 	} else if sd != nil {
 		c.see(sd)
@@ -624,6 +657,10 @@ func runC15(c *Ctx) {
 					cn := callName(x)
 					if strings.HasPrefix(cn, "(*github.com/miekg/dns.OPT).Set") {
 						n++
+						if librarySetDo[x] {
+							c.ok("opt-header-write@"+funcName(fn), instrPos(in), "the DO bit is set on the fresh response OPT where it is made (library setter)")
+							return
+						}
 						c.check(allowedHdr[fn.Name()], "opt-header-write@"+funcName(fn), instrPos(in), "OPT header set where the OPT is made", "an OPT header setter ("+cn+") is called in "+funcName(fn))
 					}
 				}
